@@ -27,8 +27,6 @@ sys.path.insert(0, VERIF)
 
 # seeded changes that break a property in a way no rule of this family reaches (stated in DESIGN.md section 10)
 EXPECTED_MISS = {
-    "C09-1": "unsound replace pair (parser language inclusion is run-time semantics)",
-    "C09-2": "lossy float renderer (round trip is run-time semantics)",
     "C01-3": "BooleanString accepts padded strings that pydantic's bool parser rejects (parser languages)",
 }
 
@@ -74,6 +72,10 @@ def battery(only=None, jobs=16):
             continue
         sid = os.path.basename(d)
         target = sid.split("-")[0]
+        try:  # a change delivered for one property but breaking another (see its meta.json note)
+            target = json.load(open(os.path.join(os.path.dirname(pf), "meta.json"))).get("property", target) or target
+        except Exception:
+            pass
         if only and target != only:
             continue
         tasks.append(("seeded", sid, pf, [target]))
